@@ -53,6 +53,7 @@ type ledger struct {
 
 	leaderOf  map[uint64]uint64       // term -> node id
 	committed map[uint64]entryRec     // index -> entry
+	commitTerm map[uint64]uint64      // index -> term of the node that was first seen with the index committed
 	seen      map[[2]uint64]entryRec  // (index, term) -> entry
 	prevTerm  map[[2]uint64]uint64    // (index, term) -> term of index-1
 	votes     map[[2]uint64]uint64    // (voter, term) -> candidate
@@ -96,7 +97,7 @@ func newLedger(w *world) *ledger {
 	l := &ledger{
 		w:         w,
 		leaderOf:  map[uint64]uint64{},
-		committed: map[uint64]entryRec{},
+		committed: map[uint64]entryRec{}, commitTerm: map[uint64]uint64{},
 		seen:      map[[2]uint64]entryRec{},
 		prevTerm:  map[[2]uint64]uint64{},
 		votes:     map[[2]uint64]uint64{},
@@ -682,6 +683,7 @@ func (l *ledger) scanNode(n *simNode) {
 			}
 		} else {
 			l.committed[i] = rec
+			l.commitTerm[i] = r.term
 			l.stats.commits++
 			l.newsAt = l.w.clock
 			if e.typ == entryConfig {
@@ -806,7 +808,9 @@ func (l *ledger) checkCommitted(n *simNode) {
 			l.violate("commit", "committed-entry-lost", fmt.Sprintf("node %d no longer holds committed entry %d (%v): log (%d,%d], snapshot %d", n.id, i, c, r.log.PrevIndex(), r.lastLogIndex, r.snaps.index))
 			delete(had, i)
 		}
-		if becameLeader && !holds {
+		// Leader Completeness binds the leaders of terms ABOVE the one in which the entry was committed (a node that
+		// wins a stale term afterwards - votes granted before - cannot commit or overwrite anything)
+		if becameLeader && !holds && r.term > l.commitTerm[i] {
 			l.violate("commit", "leader-lacks-committed-entry", fmt.Sprintf("node %d became leader of term %d without committed entry %d (%v)", n.id, r.term, i, c))
 		}
 		// a node whose own commit index covers i must agree
@@ -1180,7 +1184,7 @@ func (l *ledger) digest() string {
 	}
 	sort.Slice(idxs, func(i, j int) bool { return idxs[i] < idxs[j] })
 	for _, i := range idxs {
-		fmt.Fprintf(&sb, "C%d=%v;", i, l.committed[i])
+		fmt.Fprintf(&sb, "C%d=%v@%d;", i, l.committed[i], l.commitTerm[i])
 	}
 	vk := make([][2]uint64, 0, len(l.votes))
 	for k := range l.votes {
